@@ -75,6 +75,25 @@ def _replay_cases(pid, beh, trace, quick=True):
     return st
 
 
+def _validate(rep, trace, consts):
+    """like common.validate, but every soft violation of every run is kept (a defect that fires on many classes must not hide
+    a different one further down the file)"""
+    r = vlib.validate_traces("C04", "Trace_Hostile", TRACE_CFG, trace, constants=consts, max_violations=40, max_soft=10 ** 7)
+    rep.add_traces("hostile", r["runs"], common.count_nontrivial(trace, hit), r["events"])
+    with open(trace) as f:
+        lines = [l for _, l in zip(range(4), f)]
+    rep.sample({"part": "hostile", "first_events": [json.loads(x) for x in lines]})
+    seen = {}
+    for rej in r["rejected"]:
+        s, what = signature("C04", "Hostile", rej)
+        seen[s] = seen.get(s, 0) + 1
+        if seen[s] <= 3:      # a few witnesses per signature are enough
+            rep.violation(s, what, {"component": "Hostile", "module": "Trace_Hostile", "rejected_at": rej["at"], "reason": rej["reason"],
+                                    "trace": rej["run"]})
+    rep.cov["parts"]["hostile"]["violation_signatures"] = len(seen)
+    return r
+
+
 def run(tier, rep):
     quick = tier == "quick"
     wd = vlib.workdir("C04")
@@ -90,7 +109,7 @@ def run(tier, rep):
     hs = _replay_cases("C04", beh, trace, quick)
     vlib.log("vh-hostile: %s" % json.dumps(hs))
     rep.cov["parts"]["harness"] = hs
-    common.validate(rep, "C04", "Hostile", "Trace_Hostile", TRACE_CFG, trace, "hostile", hit, sig=signature, constants=consts)
+    _validate(rep, trace, consts)
     rep.cov["rule"] = ("for each of the three packet-number spaces (ACK, packet-number jumps, CRYPTO) and for the data space (NEW_CONNECTION_ID, "
                        "RETIRE_CONNECTION_ID, MAX_DATA, MAX_STREAMS, MAX_STREAM_DATA, STREAM, RESET_STREAM, STOP_SENDING): every legitimate history "
                        "to the stated depth enumerated by TLC x every enabled symbolic boundary class of the hostile frame; the harness instantiates "
